@@ -124,7 +124,15 @@ const KEYS: [&str; 10] = ["plain", "user:1", "emb:a", "emb:b", "node:1", "edge:7
 
 #[derive(Clone, Debug, Serialize, Deserialize)]
 enum Op {
-    Put { key: u8, fields: Vec<(u8, Val)>, emb: Emb },
+    /// warm = the same value is first written with the non-durable `put` (memory only), then with
+    /// `put_durable`: the acknowledged durable write must be in the log whatever memory already held
+    Put {
+        key: u8,
+        fields: Vec<(u8, Val)>,
+        emb: Emb,
+        #[serde(default)]
+        warm: bool,
+    },
     Delete { key: u8 },
     Sync,
     Checkpoint,
@@ -151,7 +159,7 @@ struct Case {
 
 fn op_strategy() -> impl Strategy<Value = Op> {
     prop_oneof![
-        12 => (0u8..10, prop::collection::vec((0u8..4, val_strategy()), 0..3), emb_strategy()).prop_map(|(key, fields, emb)| Op::Put { key, fields, emb }),
+        12 => (0u8..10, prop::collection::vec((0u8..4, val_strategy()), 0..3), emb_strategy(), prop::bool::weighted(0.15)).prop_map(|(key, fields, emb, warm)| Op::Put { key, fields, emb, warm }),
         4 => (0u8..10).prop_map(|key| Op::Delete { key }),
         2 => Just(Op::Sync),
         2 => Just(Op::Checkpoint),
@@ -352,8 +360,12 @@ impl<'a> Driver<'a> {
     fn exec(&mut self, op: &Op, ctx: &mut CaseCtx) {
         let mut synced = false;
         match op {
-            Op::Put { key, fields, emb } => {
+            Op::Put { key, fields, emb, warm } => {
                 let k = KEYS[*key as usize % KEYS.len()];
+                if *warm {
+                    let _ = self.store.put(k, tensor_of(k, fields, emb));
+                    ctx.label("put_durable of the value a non-durable put had just placed in memory");
+                }
                 let _ = self.store.put_durable(k, tensor_of(k, fields, emb));
                 ctx.label(format!("put:{}", k.split(':').next().unwrap_or("plain")));
                 if let Some(Val::Big { class, .. }) = fields.iter().map(|(_, v)| v).find(|v| matches!(v, Val::Big { .. })) {
